@@ -24,7 +24,7 @@ LEVEL_NOTE = ('relations only: the absolute value of the refractive index, of th
 RULE = ('air/vac: every menu wavelength (log lattice 100 A..30 um plus threshold neighbours) x every scalar form (float, int, np.float64, '
         'np.float32, 0-d array, scalar Quantity in A/nm/um/m) and every menu block as array (1-D, reversed, 2-D, strided view, float32, int64, '
         'Quantity A/nm/um) x {airtovac, vactoair}; non-trivial = at least one element >= 2000 A (a conversion happens). '
-        'sdssflux2ab: every single row of {0.5,1,20}^5 and every ordered pair of rows of a sub-menu x {flux, magnitude, ivar} x {f8,f4}; '
+        'sdssflux2ab: every single row of {0.5,1,20}^5, every ordered pair of rows of a sub-menu and rotated stacks of 3..6 rows x {flux, magnitude, ivar} x {f8,f4}; '
         'non-trivial = row not constant across bands or more than one row. '
         'filter_thru: every unordered pair of comb impulses x coefficient menu x (wavelength solution, image/trace-set form, dtype, toair, mask) '
         'and every single masked run of 1..10 pixels starting on the comb x wild values; non-trivial = at least one band overlapped by the trace. '
@@ -520,6 +520,7 @@ def tasks(tier):
     # shard 0: small and fast
     t.append({'k': 'ab1', 'dtype': 'f8'})
     t.append({'k': 'ab1', 'dtype': 'f4'})
+    t.append({'k': 'ab3'})
     sub = [0.5, 20.0] if not T else [0.5, 1.0, 20.0]
     for first in itertools.product(sub, repeat=(1 if not T else 2)):
         t.append({'k': 'ab2', 'first': list(first), 'menu': sub})
@@ -600,6 +601,20 @@ def run_task(task):
                     acc.case(_key(case), True, 'ok:ab2:' + mode if not bad else 'bad:' + bad[0][0], sample=case)
                     for sig, msg in bad:
                         acc.violation(sig, case, msg)
+    elif k == 'ab3':
+        # taller arrays: every cyclic rotation of the band values, stacked 3..6 rows high
+        base = [[0.5, 1.0, 20.0, 1.0, 0.5], [20.0, 0.5, 1.0, 20.0, 1.0], [1.0, 20.0, 0.5, 0.5, 20.0]]
+        for nrow in (3, 4, 5, 6):
+            for rot in range(5):
+                for start in range(3):
+                    rows = [base[(start + i) % 3][rot:] + base[(start + i) % 3][:rot] for i in range(nrow)]
+                    for mode in ('mag', 'flux', 'ivar'):
+                        for dt in ('f8', 'f4'):
+                            case = {'f': 'ab', 'rows': rows, 'mode': mode, 'dtype': dt}
+                            bad = check_ab(case)
+                            acc.case(_key(case), True, 'ok:ab%d:%s' % (nrow, mode) if not bad else 'bad:' + bad[0][0], sample=case)
+                            for sig, msg in bad:
+                                acc.violation(sig, case, msg)
     elif k == 'avs':
         menu = wave_menu(task['n'])[task['lo']:task['hi']]
         for w in menu:
